@@ -180,7 +180,7 @@ OPS = {"query": queries()}
 
 
 def run(ctx, tier, seed, idx, nshards):
-    stateful.run(ctx, Sim, OPS, inits(), n_examples={"quick": 40, "thorough": 400}[tier], max_steps=25 if tier == "quick" else 50, seed=seed)
+    stateful.run(ctx, Sim, OPS, inits(), n_examples={"quick": 120, "thorough": 800}[tier], max_steps=25 if tier == "quick" else 50, seed=seed)
     ctx.extra["baselines"] = len(_BASELINE)
 
 
